@@ -52,7 +52,7 @@ def run(ck, facts, tier):
         empty = vkey(Sym("m", "is_empty", vkey(RATES), ()))
         under, under_p = paths.lit(cel.cmp_sym("Gt", q, n + Poly.const(1), True))
         over, over_p = paths.lit(cel.cmp_sym("Lt", q, n + Poly.const(1), True))
-        first = fld(Poly.atom(("call", "index", (vkey(RATES), Poly.const(0).key()))), "settlement")
+        first = fld(Sym("at", vkey(RATES), Poly.const(0).key()), "settlement")
         some_arm, none_arm = ("arm", ("Some", "_"), vkey(first)), ("arm", "None", vkey(first))
         dset = fld(at(RATES, "q0"), "settlement")
         date = Sym("payload", vkey(first), 0)
